@@ -3,6 +3,7 @@ package midix
 import (
 	"fmt"
 	"log/slog"
+	"math"
 
 	"github.com/berquerant/crd/errorx"
 	"github.com/berquerant/crd/logx"
@@ -24,6 +25,9 @@ type TrackNoSelectorImpl struct {
 func NewTrackNoSelector(trackNum int) (*TrackNoSelectorImpl, error) {
 	if trackNum < 1 {
 		return nil, errorx.Invalid("TrackNoSelector requires positive trackNum, %d", trackNum)
+	}
+	if trackNum > math.MaxUint16 {
+		return nil, errorx.Invalid("TrackNoSelector requires trackNum that fits a midi file header, %d", trackNum)
 	}
 	return &TrackNoSelectorImpl{
 		trackNum: trackNum,
